@@ -919,7 +919,12 @@ def remap_by_types(
                 (ast.literal_eval(f), self.lookup_type(v))  # type: ignore
                 for f, v in zip(t_node.keys, t_node.values)
             ]
-            dict_dataclass = make_dataclass("dict_dataclass", fields)
+            try:
+                dict_dataclass = make_dataclass("dict_dataclass", fields)
+            except (TypeError, ValueError):
+                # Keys that are not valid field names (e.g. "a b", "class", "") - we can't
+                # type-follow this dictionary, but it is still a perfectly good dictionary.
+                return t_node
 
             self._found_types[t_node] = dict_dataclass
             return t_node
